@@ -2,8 +2,8 @@
 //!
 //! Zones {p., c.p., s.}; per zone a file state in {missing, valid-v1,
 //! valid-v2, syntax-error, validation-error, valid-with-warning (v3),
-//! validation-error-and-warning}; events = {set the configured subset (8),
-//! set one file's state (21)}, a reload after each event. Every
+//! validation-error-and-warning, record-of-another-class}; events = {set the
+//! configured subset (8), set one file's state (24)}, a reload after each event. Every
 //! event sequence up to the depth bound is executed on a real directory
 //! through config::load_from_path -> zones::reload -> Server::set_catalog,
 //! and after every step the installed catalog is queried through
@@ -35,9 +35,13 @@ enum FileState {
     Warned,
     /// Validation reports an error and a warning: not loadable.
     InvalidAndWarned,
+    /// A complete, valid zone plus one record of another class (CH in an IN
+    /// zone): the zone store rejects that record, so the file is not loadable.
+    ForeignClass,
 }
 
-const FILE_STATES: [FileState; 7] = [FileState::Missing, FileState::V1, FileState::V2, FileState::Syntax, FileState::Invalid, FileState::Warned, FileState::InvalidAndWarned];
+const FILE_STATES: [FileState; 8] =
+    [FileState::Missing, FileState::V1, FileState::V2, FileState::Syntax, FileState::Invalid, FileState::Warned, FileState::InvalidAndWarned, FileState::ForeignClass];
 
 #[derive(Clone, Copy, Debug, PartialEq, Eq)]
 enum Event {
@@ -87,6 +91,7 @@ fn file_text(zone: usize, s: FileState) -> Option<String> {
         FileState::Warned => Some(format!("{}@ MX 10 mx\n", zone_text(zone, 3))),
         // An error-class issue (in-zone name server without an address) next
         // to the same warning-class issue.
+        FileState::ForeignClass => Some(format!("{}www CH TXT \"other class\"\n", zone_text(zone, 4))),
         FileState::InvalidAndWarned => Some(format!(
             "$ORIGIN {}\n$TTL 60\n@ IN SOA ns admin 8 3600 600 86400 60\n@ NS ns\n@ MX 10 mx\n@ TXT \"zone=broken-and-warned\"\n",
             ZONES[zone]
@@ -344,7 +349,7 @@ pub fn run(ctx: Ctx) -> ! {
     let root = scratch_root();
     let totals = Totals { transitions: AtomicU64::new(0), histories: AtomicU64::new(0) };
     let all_states = std::sync::Mutex::new(BTreeSet::new());
-    let rule = "every sequence of <= d events (d = 4 quick, 5 thorough) over {set configured subset of {p., c.p., s.} (8), set one zone file to missing / valid v1 / valid v2 / syntax error / validation error / valid with a validation warning (v3) / validation error together with a warning (21)}, a reload after each, executed from scratch on a real directory through the daemon's config::load_from_path -> zones::reload -> Server::set_catalog (no state merging: entry metadata - path, mtime - is hidden state); after every step 6 probe names are queried through Server::handle_message and compared with the reference model (longest configured suffix; new data if the file loads and validates, else this zone's previous data, else SERVFAIL; unconfigured => not served). states = distinct (configuration, files, model) states reached, transitions = reload steps executed, traces_validated_against_impl = histories executed";
+    let rule = "every sequence of <= d events (d = 4 quick, 5 thorough) over {set configured subset of {p., c.p., s.} (8), set one zone file to missing / valid v1 / valid v2 / syntax error / validation error / valid with a validation warning (v3) / validation error together with a warning / valid but for one record of another class (24)}, a reload after each, executed from scratch on a real directory through the daemon's config::load_from_path -> zones::reload -> Server::set_catalog (no state merging: entry metadata - path, mtime - is hidden state); after every step 6 probe names are queried through Server::handle_message and compared with the reference model (longest configured suffix; new data if the file loads and validates, else this zone's previous data, else SERVFAIL; unconfigured => not served). states = distinct (configuration, files, model) states reached, transitions = reload steps executed, traces_validated_against_impl = histories executed";
     if let Some(case) = ctx.replay_case() {
         let idx: Vec<usize> = case["history_idx"].as_array().or_else(|| case["case"]["history_idx"].as_array()).expect("history_idx").iter().map(|v| v.as_u64().unwrap() as usize).collect();
         let hist: Vec<Event> = idx.iter().map(|i| evs[*i]).collect();
